@@ -650,6 +650,18 @@ func cdfChecks(f *Fam, p Params, report func(Failure), tried *int, extra []float
 		if i < len(xs)-len(extra) {
 			prev, prevx = v, x
 		}
+		if f.Discrete {
+			// discrete analogue of "the density is the derivative": Cdf(x) = sum of the masses at 0..floor(x)
+			s := 0.0
+			for k := 0; float64(k) <= x && k < 64; k++ {
+				if m := num(logpdfGo(d, float64(k))); !math.IsNaN(m) {
+					s += math.Exp(m)
+				}
+			}
+			if !(math.Abs(v-s) <= 1e-9) {
+				report(mkF(f.Name, "cdf-sum", "Cdf", p, x, fmt.Sprintf("%v", v), fmt.Sprintf("sum of the masses up to x = %v", s)))
+			}
+		}
 		if !f.Discrete {
 			ref := refLogPdf(f.Name, p, x)
 			if !math.IsInf(ref, 0) && !math.IsNaN(ref) && x-1e-5*scale > lo && x+1e-5*scale < hi {
